@@ -1344,6 +1344,8 @@ class Emit:
         hdr = ['#include "vp_rt.h"']
         hdr += [d[1] for d in AGG_DECLS.values()]
         nd = ['%s nondet_%s(void);' % (d[0], d[0]) for d in AGG_DECLS.values()]
+        # outside the model checker (translator self-test builds the generated C with gcc) an undef aggregate is all zero
+        nd += ['#ifndef __CPROVER__'] + ['%s nondet_%s(void) { %s z; vp_memset((uint8_t*)&z, 0, sizeof z); return z; }' % (d[0], d[0], d[0]) for d in AGG_DECLS.values()] + ['#endif']
         text = '\n'.join(hdr + nd + ['/* externals */'] + [e[1] for e in ext] + ['/* prototypes */'] + protos + s.gfwd + s.gdecl + ['/* stubs for unmodelled externals */'] + stubs + [''] + tid + [''] + body + ginit) + '\n'
         meta = dict(functions=sorted(x[1:] for x in seen), externals=sorted(x[0][1:] for x in ext), unmodelled=unmodelled)
         return text, meta
